@@ -112,6 +112,10 @@ def sample_row(pos, fault):
         r['beads'] = 'B_NF' if pos % 5 == 3 else 'B_NOVAL'
     if fault == 'ok':
         return r
+    if fault == 'ok:nounits':
+        # a healthy row that reports no channel at all (every units cell empty: documented as "ignored")
+        r['units'] = {FL1: None, FL2: None}
+        return r
     if pos % 5 in (2, 3) and (fault.startswith('mef-') or fault in ('other-instrument', 'amp-differs', 'voltage-differs', 'voltage-zero', 'voltage-differs-second', 'amp-differs-second')):
         # these faults only exist for a row that asks for MEF: at these positions use an integer (log-amplified) file and ask for it
         r['file'] = 'cell_4.fcs' if pos % 5 == 3 else r['file']
@@ -268,6 +272,10 @@ def cases(tier, seed):
     for f in ['units=' + u for u in BAD_UNITS] + ['fraction=%r' % x for x in BAD_FRACTIONS]:
         for rows in ([f], ['ok', f], [f, 'ok'], ['ok', f, 'ok']) if tier == 'thorough' else ([f], [f, 'ok']):
             yield dict(kind='samples', rows=rows)
+    # healthy rows that report no channel at all, among reporting and faulty rows
+    for rows in (['ok:nounits'], ['ok', 'ok:nounits'], ['ok:nounits', 'ok'], ['ok', 'ok:nounits', 'notfound', 'fraction-big', 'ok'], ['ok:nounits', 'ok:nounits'],
+                 ['units', 'ok:nounits', 'ok']):
+        yield dict(kind='samples', rows=rows)
     # settings that differ from the beads' in the second of two calibrated channels only
     for f in ('voltage-differs-second', 'amp-differs-second'):
         for rows in ([f], ['ok', f], [f, 'ok'], ['ok', f, 'ok'], [f, f]):
@@ -300,15 +308,22 @@ def bounds(tier, seed):
             'bead_tables': 'R<=2 complete' if tier == 'quick' else 'R<=3 complete, R=4 with <=1 fault'}
 
 
-def single_fp(pos, variant):
-    key = (pos, variant)
+def single_fp(pos, variant, f='ok'):
+    key = (pos, variant, f)
     if key not in _SINGLE:
-        samples, st, hist = run_samples([sample_row(pos, 'ok')], variant)
+        samples, st, hist = run_samples([sample_row(pos, f)], variant)
         s = samples['S%d' % (pos + 1)]
         if isinstance(s, Exception):
             raise RuntimeError('healthy reference row failed: %s' % s)
         _SINGLE[key] = (fp(s), st.loc['S%d' % (pos + 1)].to_dict(), hist_rows(hist, 'S%d' % (pos + 1)))
     return _SINGLE[key]
+
+
+def _single_or_none(pos, variant, f):
+    try:
+        return single_fp(pos, variant, f)[0]
+    except Exception:
+        return None
 
 
 def hist_rows(hist, sid):
@@ -477,7 +492,7 @@ def run_case(c):
         try:
             samples, st, hist = run_samples(rows, variant)
         except Exception as e:
-            res.violation('samples:batch-aborted:%s:%s' % (type(e).__name__, '+'.join(sorted(set(f for f in faults if f != 'ok')))),
+            res.violation('samples:batch-aborted:%s:%s' % (type(e).__name__, '+'.join(sorted(set(f for f in faults if not f.startswith('ok'))))),
                           '%s: %s escaped: %s' % (what, type(e).__name__, e), one)
             return res
         if list(samples.keys()) != [r['id'] for r in rows]:
@@ -488,7 +503,7 @@ def run_case(c):
             s = samples[r['id']]
             note = st.loc[r['id'], 'Analysis Notes']
             statvals = [st.loc[r['id'], '%s %s' % (ch, sc)] for ch in (FL1, FL2) for sc in STAT_COLS] + [st.loc[r['id'], 'Number of Events']]
-            if f != 'ok':
+            if not f.startswith('ok'):
                 if not isinstance(s, ui.ExcelUIException):
                     res.violation('samples:fault-not-reported:%s' % f, '%s: row %s (%s) yielded %s instead of a row error' % (what, r['id'], f, type(s).__name__), one)
                     ok = False
@@ -507,7 +522,13 @@ def run_case(c):
                     ok = False
                     continue
                 # same id/position-independent content as when processed alone
-                ref_fp, ref_row, ref_hist = single_fp(p, variant)
+                try:
+                    ref_fp, ref_row, ref_hist = single_fp(p, variant, f)
+                except Exception as e:
+                    res.violation('samples:single-row-run-aborted:%s' % type(e).__name__, '%s: the table holding only the healthy row %s (processed alone, for comparison) aborted with %s: %s' % (
+                        what, r['id'], type(e).__name__, e), one)
+                    ok = False
+                    continue
                 if fp(s) != ref_fp:
                     res.violation('samples:healthy-row-differs', '%s: healthy row %s differs from its single-row run: %s' % (what, r['id'], diff(fp(s), ref_fp)), one)
                     ok = False
@@ -546,11 +567,11 @@ def run_case(c):
                 s2 = s_nb.get(r['id'])
                 if f in needs_bt:
                     continue
-                if f != 'ok':
+                if not f.startswith('ok'):
                     if not isinstance(s2, ui.ExcelUIException):
                         res.violation('samples:no-beads-table:fault-not-reported:%s' % f, '%s, processed without beads_table: row %s (%s) yielded %s instead of a row error' % (what, r['id'], f, type(s2).__name__), one)
                         ok = False
-                elif isinstance(s2, Exception) or fp(s2) != single_fp(p, variant)[0]:
+                elif isinstance(s2, Exception) or fp(s2) != _single_or_none(p, variant, f):
                     res.violation('samples:no-beads-table:healthy-row-differs', '%s, processed without beads_table: healthy row %s differs from its single-row result (%s)' % (what, r['id'], s2 if isinstance(s2, Exception) else 'other events'), one)
                     ok = False
         if not rows:
@@ -558,7 +579,7 @@ def run_case(c):
                 res.violation('samples:empty-table', 'an empty Samples table yields %d results' % len(samples), one)
                 ok = False
         if ok:
-            nf = sum(1 for f in faults if f != 'ok')
+            nf = sum(1 for f in faults if not f.startswith('ok'))
             res.ok('samples:R=%d:faults=%d' % (len(rows), nf), nf > 0)
         res.sample({'table': 'Samples', 'rows': faults, 'order': order})
         return res
